@@ -247,6 +247,47 @@ func FamForeign(seed int64) WireRecord {
 	send(910, `{"call":"c10","function":"Greet","args":[910,"x"]}`, "function with a value and no error")
 	send(921, `{"call":"c21","function":"Svc.Hello","args":[921]}`, "nested service held in an interface-typed field")
 	send(922, `{"call":"c22","function":"Kv.Size","args":[922]}`, "nested service of a named map type")
+	// node A calls the foreign peer passing a function whose parameter is a list of lists; the peer invokes it
+	// with a hand-written frame that has a null element, then answers the call
+	if WaitRemotes(node, 1) {
+		var rem sysRemote
+		for _, x := range node.Remotes() {
+			rem = x
+		}
+		gdone := make(chan string, 1)
+		go func() {
+			gctx, gcancel := context.WithTimeout(context.Background(), 4*time.Second)
+			defer gcancel()
+			v, err := rem.Groups(gctx, 923, func(ctx context.Context, gs [][]string) (string, error) { return fmt.Sprint(len(gs)), nil })
+			gdone <- v + "/" + errText(err)
+		}()
+		got := make(chan json.RawMessage, 1)
+		go func() { f, err := reqOut.Get(); if err == nil { got <- f } }()
+		select {
+		case f := <-got:
+			var q struct {
+				Call string            `json:"call"`
+				Args []json.RawMessage `json:"args"`
+			}
+			json.Unmarshal(f, &q)
+			if len(q.Args) == 2 {
+				send(923, fmt.Sprintf(`{"call":"c23","function":"CallClosure","args":[%s,[[["alice"],null,["bob","carol"]]]]}`, string(q.Args[1])), "invocation of a passed function with a null element in a list of lists")
+				resIn.Put(json.RawMessage(fmt.Sprintf(`{"call":%q,"value":"ok","err":""}`, q.Call)))
+				select {
+				case r := <-gdone:
+					if r != "ok/" {
+						rec.Notes = append(rec.Notes, "the call that passed the function returned "+r+" after the foreign peer answered it with \"ok\"")
+					}
+				case <-time.After(5 * time.Second):
+					rec.Notes = append(rec.Notes, "the call that passed the function did not return after the foreign peer answered it")
+				}
+			} else {
+				rec.Notes = append(rec.Notes, "unexpected request frame for a call passing a function: "+string(f))
+			}
+		case <-time.After(3 * time.Second):
+			rec.Notes = append(rec.Notes, "the request of a call passing a function was not written")
+		}
+	}
 	cancel()
 	reqIn.Close(errors.New("closed"))
 	resIn.Close(errors.New("closed"))
@@ -471,5 +512,156 @@ func FamFraming(seed int64, variant int) SysRecord {
 	}
 	time.Sleep(time.Millisecond)
 	rec.Events = w.Events()
+	return rec
+}
+
+// FamEagerPeer — a transport that hands the peer's answer to the registry before the write of the request has
+// even returned (an in-process peer, a loopback, a very fast network): the answer still reaches its call.
+func FamEagerPeer(seed int64, stream bool) SysRecord {
+	cfg := "json-raw/message-eager-peer"
+	if stream {
+		cfg = "json-raw/stream-eager-peer"
+	}
+	rec := SysRecord{Family: "framing", Config: cfg, Seed: seed}
+	w := newWorld()
+	node := NewSysNode[json.RawMessage](w, "A")
+	c := jsonRawCodec()
+	ctx, cancel := context.WithCancel(context.Background())
+	defer cancel()
+	errc := make(chan error, 1)
+	answer := func(req []byte) string {
+		var q struct {
+			Call string            `json:"call"`
+			Args []json.RawMessage `json:"args"`
+		}
+		json.Unmarshal(req, &q)
+		val := "null"
+		if len(q.Args) > 1 {
+			val = string(q.Args[1])
+		}
+		return fmt.Sprintf(`{"call":%q,"value":%s,"err":""}`, q.Call, val)
+	}
+	if !stream {
+		reqIn, resIn := newFrameQ[json.RawMessage](), newFrameQ[json.RawMessage]()
+		go func() {
+			errc <- node.Reg.LinkMessage(ctx,
+				func(b json.RawMessage) error { resIn.Put(json.RawMessage(answer(b))); time.Sleep(2 * time.Millisecond); return nil },
+				func(b json.RawMessage) error { return nil }, reqIn.Get, resIn.Get, c.Marshal, c.Unmarshal, nil)
+		}()
+		defer func() { reqIn.Close(errors.New("closed")); resIn.Close(errors.New("closed")) }()
+	} else {
+		in := newChunkPipe(0, seed)
+		enc := func(v rpc.Message[json.RawMessage]) error {
+			if v.Request != nil {
+				in.Write([]byte(fmt.Sprintf(`{"request":null,"response":%s}`, answer(*v.Request))))
+				time.Sleep(2 * time.Millisecond)
+			}
+			return nil
+		}
+		go func() { errc <- node.Reg.LinkStream(ctx, enc, c.NewDecoder(in), c.Marshal, c.Unmarshal, nil) }()
+		defer in.Close(errors.New("closed"))
+	}
+	if !WaitRemotes(node, 1) {
+		rec.Notes = append(rec.Notes, "link did not come up")
+		return rec
+	}
+	var rem sysRemote
+	for _, x := range node.Remotes() {
+		rem = x
+	}
+	for k := 0; k < 3; k++ {
+		cctx, ccancel := context.WithTimeout(ctx, 2*time.Second)
+		v, err := rem.EchoInt(cctx, 778+k, int64(9+k))
+		ccancel()
+		rec.Calls = append(rec.Calls, SysCall{Tag: 778 + k, From: "A", Method: "NodeCallEager", Arg: fmt.Sprint(9 + k), Ret: canon(v), Err: errText(err), Done: true})
+	}
+	cancel()
+	select {
+	case <-errc:
+	case <-time.After(3 * time.Second):
+		rec.Notes = append(rec.Notes, "link did not return")
+	}
+	return rec
+}
+
+// FamStuckStreamWrite — stream API with an encode function that is safe for concurrent use: the write of one
+// request is stuck in the transport; a second call made meanwhile is cancelled and must return promptly (its
+// frame is not behind the stuck one), a third completes.
+func FamStuckStreamWrite(seed int64) SysRecord {
+	rec := SysRecord{Family: "cancel", Config: "json-raw/stream one request write stuck in the transport", Seed: seed}
+	w := newWorld()
+	node := NewSysNode[json.RawMessage](w, "A")
+	c := jsonRawCodec()
+	ctx, cancel := context.WithCancel(context.Background())
+	defer cancel()
+	errc := make(chan error, 1)
+	in := newChunkPipe(0, seed)
+	release := make(chan struct{})
+	stuck := make(chan struct{}, 1)
+	enc := func(v rpc.Message[json.RawMessage]) error {
+		if v.Request == nil {
+			return nil
+		}
+		var q struct {
+			Call     string            `json:"call"`
+			Function string            `json:"function"`
+			Args     []json.RawMessage `json:"args"`
+		}
+		json.Unmarshal(*v.Request, &q)
+		switch q.Function {
+		case "Gate": // this one frame is stuck in the transport
+			stuck <- struct{}{}
+			<-release
+		case "EchoStr": // answered at once
+			in.Write([]byte(fmt.Sprintf(`{"request":null,"response":{"call":%q,"value":%s,"err":""}}`, q.Call, string(q.Args[1]))))
+		}
+		return nil
+	}
+	go func() { errc <- node.Reg.LinkStream(ctx, enc, c.NewDecoder(in), c.Marshal, c.Unmarshal, nil) }()
+	defer in.Close(errors.New("closed"))
+	if !WaitRemotes(node, 1) {
+		rec.Notes = append(rec.Notes, "link did not come up")
+		return rec
+	}
+	var rem sysRemote
+	for _, x := range node.Remotes() {
+		rem = x
+	}
+	xdone := make(chan struct{})
+	go func() { defer close(xdone); rem.Gate(ctx, 7600) }()
+	select {
+	case <-stuck:
+	case <-time.After(3 * time.Second):
+		rec.Notes = append(rec.Notes, "the first request was never handed to the transport")
+	}
+	bctx, bcancel := context.WithCancel(ctx)
+	bdone := make(chan SysCall, 1)
+	go func() {
+		v, err := rem.EchoInt(bctx, 7601, 5) // never answered
+		bdone <- SysCall{Tag: 7601, From: "A", Method: "CancelledWhileOtherWriteStuck", Ret: canon(v), Err: errText(err), Done: true}
+	}()
+	time.Sleep(30 * time.Millisecond)
+	bcancel()
+	select {
+	case cl := <-bdone:
+		rec.Calls = append(rec.Calls, cl)
+	case <-time.After(2 * time.Second):
+		rec.Calls = append(rec.Calls, SysCall{Tag: 7601, From: "A", Method: "CancelledWhileOtherWriteStuck", Err: "DID-NOT-RETURN within 2 s"})
+	}
+	cctx, ccancel := context.WithTimeout(ctx, 2*time.Second)
+	v, err := rem.EchoStr(cctx, 7602, "c")
+	ccancel()
+	rec.Calls = append(rec.Calls, SysCall{Tag: 7602, From: "A", Method: "CallWhileOtherWriteStuck", Ret: canon(v), Err: errText(err), Done: true})
+	close(release)
+	cancel()
+	select {
+	case <-xdone:
+	case <-time.After(3 * time.Second):
+	}
+	select {
+	case <-errc:
+	case <-time.After(3 * time.Second):
+		rec.Notes = append(rec.Notes, "link did not return")
+	}
 	return rec
 }
